@@ -482,4 +482,36 @@ def run(ctx):
             ctx.count('alteration', r['desc']['what'].split(':degenerate')[0] if 'degenerate' not in r['desc']['what'] else 'sig:degenerate')
         if model is not None and model[i] != r['impl']:
             ctx.mismatch(r['stream'], r['desc'], r['impl'], model[i])
+    # ---- signature-shape hunt (ECDSA curves): among many signatures of one key, those whose r / s starts with the octets where an
+    # integer encoding changes width or sign (0x80 exactly, 0x7f, 0x81, 0x00 …) — each must verify, as the independent verifier says
+    from pytezos.crypto.key import Key
+    n_hunt = 2500 if quick else 60000
+    for curve in ('sp', 'p2'):
+        key = Key.from_secret_exponent(bytes(range(7, 39)), curve.encode())
+        pub = key.public_point
+        picked = {}
+        for i in range(n_hunt):
+            msg = f'hunt-{curve}-{i}'.encode()
+            text = key.sign(msg, generic=False)
+            raw = K.tz_decode(curve + 'sig', text)
+            if raw is None or len(raw) != 64:
+                ctx.violation(f'signature-form:{curve}', f'{text[:14]}… is not a 64-byte {curve}sig', {'curve': curve, 'message': msg.decode(), 'signature': text})
+                break
+            shape = ','.join(f'{nm}[0]={b:#04x}' for nm, b in (('r', raw[0]), ('s', raw[32])) if b in (0x80, 0x7f, 0x81, 0x00, 0x01, 0xff))
+            if shape and picked.get(shape, 0) < 3:
+                picked[shape] = picked.get(shape, 0) + 1
+                ctx.case({'stream': 'signature-shape-hunt', 'curve': curve, 'message': msg.decode(), 'shape': shape})
+                ctx.count('signature-shape', f'{curve}:{shape}')
+                if not K.indep_verify(curve, pub, msg, raw):
+                    ctx.violation(f'independent-verifier-rejects:{curve}:{shape}', f'independent {curve} verification rejects {text[:16]}… over {msg!r}', {'curve': curve, 'message': msg.decode(), 'signature': text})
+                    continue
+                for form, arg in (('own', text), ('generic', K.tz_encode('sig', raw))):
+                    try:
+                        ok = key.verify(arg, msg) is True
+                        why = 'returned something else than True'
+                    except Exception as e:  # noqa: BLE001
+                        ok, why = False, f'raised {type(e).__name__}: {e}'
+                    if not ok:
+                        ctx.violation(f'verify-rejects-valid-signature:{curve}:{shape}', f'Key.verify({arg[:16]}…, {msg!r}) {why}; the signature ({shape}) is valid: made by Key.sign of the same '
+                                      f'key and accepted by the independent verifier', {'curve': curve, 'secret': bytes(range(7, 39)).hex(), 'message': msg.decode(), 'signature': arg, 'shape': shape})
     ctx.extra['keys'] = {'fast_curves_each': n_fast + 1, 'bls': n_bls + 1, 'workers': workers}
